@@ -67,7 +67,9 @@ func coqRoutes(rs []rroute) string {
 
 var routeLits = []string{"a", "b", "users", "items", "x1", "me"}
 var routeVarsByDepth = []string{"id", "name", "key", "v2"}
-var routeMethods = []string{"get", "put", "post", "delete", "patch"}
+var routeMethods = []string{"get", "put", "post", "delete", "patch", "options", "head", "trace", "connect"} // all nine methods of a path item
+
+var probeMethods = []string{"get", "put", "post", "delete", "patch"} // methods used for wrong-method probes
 
 // genRouteSet draws path templates such that of two templates matching one path, one is
 // segment-wise more specific (what every router needs in order to agree with the statement):
@@ -426,7 +428,7 @@ func runC03(r *Report, rng *rand.Rand, thorough bool) {
 					if len(segs) > 1 {
 						add("missing-segment", rt.method, segs[:len(segs)-1])
 					}
-					for _, m := range routeMethods {
+					for _, m := range probeMethods {
 						if m != rt.method {
 							add("other-method", m, segs)
 							break
@@ -503,7 +505,7 @@ func runC03(r *Report, rng *rand.Rand, thorough bool) {
 		// static sibling: third-party behaviour, recorded as a known finding and kept out of the
 		// correspondence (the model is the dispatch the statement requires)
 		echoQuirk := false
-		if m.fw == "echo" && m.kind == "extra-segment" && want == nil && len(handlers) == 1 {
+		if m.fw == "echo" && want == nil && len(handlers) == 1 {
 			for _, rt := range set.rs {
 				if opName(rt.op) == handlers[0].Name && len(rt.tmpl) > 0 && rt.tmpl[len(rt.tmpl)-1].v != "" && strings.Contains(pathArg(handlers[0], rt.tmpl[len(rt.tmpl)-1].v), "/") {
 					echoQuirk = true
@@ -513,6 +515,33 @@ func runC03(r *Report, rng *rand.Rand, thorough bool) {
 		if echoQuirk {
 			r.Violate("echo_trailing_variable_swallows_extra_segments", fmt.Sprintf("echo %s /%s matches no operation but handler %s ran with the extra segments inside its last path variable", m.method, strings.Join(m.segs, "/"), handlers[0].Name), replay)
 			continue
+		}
+		// iris's trie does not go back from a static child to a variable sibling: when the request path is a
+		// proper prefix of a longer route of the same method whose segment at that place is a literal, the
+		// shorter templated route is not found (third-party behaviour, recorded, kept out of the correspondence)
+		if m.fw == "iris" && want != nil && len(handlers) == 0 && res.Status == 404 {
+			quirk := false
+			segs := m.segs[len(m.base):]
+			for _, rt := range set.rs {
+				if rt.method != m.method || rt.op == want.op {
+					continue
+				}
+				// the other route agrees with the request up to a place where it has a literal equal to the
+				// request's segment while the wanted route has a variable there: the trie takes the literal branch
+				for i := 0; i < len(rt.tmpl) && i < len(segs) && i < len(want.tmpl); i++ {
+					if rt.tmpl[i].v == "" && rt.tmpl[i].lit == segs[i] && want.tmpl[i].v != "" {
+						quirk = true
+						break
+					}
+					if rt.tmpl[i].v == "" && rt.tmpl[i].lit != segs[i] {
+						break
+					}
+				}
+			}
+			if quirk {
+				r.Violate("iris_no_backtracking_from_static_prefix_to_variable", fmt.Sprintf("iris %s /%s matches %s but a route with a literal where that one has a variable hides it (status 404)", m.method, strings.Join(m.segs, "/"), opName(want.op)), replay)
+				continue
+			}
 		}
 		if !isStrictPkg(lab, sc["pkg"].(string)) {
 			dcases.Add(fmt.Sprintf("(%s, %s, %s, %s, %s)", gendoc.CoqStrList(m.base), coqRoutes(set.rs), gendoc.CoqStr(strings.ToUpper(m.method)), gendoc.CoqStrList(m.segs), obs), replay)
